@@ -74,7 +74,8 @@ def one_prop(prop):
 with ThreadPoolExecutor(jobs) as ex:
     res = dict(ex.map(one_prop, props))
 # the translators wrote the scratch trees' tables into lean/Midgard/Generated: put back what /repo says
-subprocess.run(["git", "-C", str(V), "checkout", "--", "lean/Midgard/Generated"], capture_output=True)
+subprocess.run(["/venv/bin/python", str(V / "tools" / "setup.py"), "--translate-only"], capture_output=True,
+               env={k: v for k, v in os.environ.items() if k != "MIDGARD_REPO"})
 path = V / "seeded" / "REGRESSION.json"
 old = json.loads(path.read_text()) if path.exists() else {}
 old.update({p: {"repo_head": head, **r} for p, r in res.items()})
